@@ -5,7 +5,7 @@ import json
 import re
 from fractions import Fraction
 
-from ..coqlit import Err, Ok, clist, copt, cpair, cstr, cz
+from ..coqlit import Err, Ok, clist, cnat, copt, cpair, cstr, cz
 
 PROP = "C20"
 RUN = "Run_C20"
@@ -25,7 +25,10 @@ RULE = ("Resources with counts in -1..8 (+ a few large), memory strings across B
         "operands; update with field keys, extra_args= and free keys in random order; with_defaults / "
         "maybe_with_defaults with and without None; dict/from_dict round trips, from_dict of dicts with unknown keys; "
         "to_slurm_options; _maybe_max_resources (NestedPipeFunc) with 0..4 children, some without resources, with and "
-        "without an explicit argument. Operand state is observed after every call. non-trivial = every case except the all-default "
+        "without an explicit argument; SEQUENCES of 3-6 operations (create / update / combine_max / with_defaults / "
+        "from_dict / dict / to_slurm_options / ==) on a heap of 2-3 shared objects and on their results, where after "
+        "every step every live object is observed again (fields, sorted(vars(obj)), obj.update(), to_slurm_options(), "
+        "from_dict(dict()) == obj). Operand state is observed after every call. non-trivial = every case except the all-default "
         "constructor and combine_max of < 2 operands; distinct by (kind, canonical JSON of the case)")
 ASSUMPTIONS = [
     "typed domain: counts are Python ints (no bools/floats), memory/time/partition are str or None, "
@@ -36,6 +39,8 @@ ASSUMPTIONS = [
     "different exact sizes wrongly (relative gap >= 1e-6 vs. float error ~1e-16); the model uses exact rationals. "
     "Equal sizes written differently may be ordered either way by the floats: combine_max results are therefore "
     "observed by exact size only",
+    "inside one operation sequence equal memory sizes are written with the same string (the result of combine_max "
+    "stays in the heap and its memory string is observed by the later steps)",
     "a 4-component wall time is read as D:HH:MM:SS (property text); 3 components as H:MM:SS; 2 as MM:SS",
 ]
 TRUSTED = ["Model/Resources.v mirrors pipefunc/resources.py (as repaired on branch c20) by hand; "
@@ -109,7 +114,30 @@ def emit_case(c) -> str:
         e = c["e"]
         el = "ENone" if e is None else f"(ERes {_res(e['res'])})" if "res" in e else f"(EDict {_udict(e['dict'])})"
         return f"(CMaybeMax {el} {clist([copt(a, _res) for a in c['ch']])})"
+    if k == "seq":
+        return f"(CSeq {clist([_res(a) for a in c['base']])} {clist([_rop(o) for o in c['ops']])})"
     raise ValueError(k)
+
+
+def _rop(o):
+    t = o[0]
+    if t == "create":
+        return f"(OCreate {_res(o[1])})"
+    if t == "update":
+        return f"(OUpdate {cnat(o[1])} {_udict(o[2])})"
+    if t == "combine":
+        return f"(OCombine {clist([cnat(j) for j in o[1]])})"
+    if t == "with_defaults":
+        return f"(OWithDefaults {cnat(o[1])} {copt(o[2], cnat)})"
+    if t == "from_dict":
+        return f"(OFromDict {cnat(o[1])})"
+    if t == "dict":
+        return f"(ODict {cnat(o[1])})"
+    if t == "slurm":
+        return f"(OSlurm {cnat(o[1])})"
+    if t == "eq":
+        return f"(OEq {cnat(o[1])} {cnat(o[2])})"
+    raise ValueError(t)
 
 
 # ------------------------------------------------------------------ implementation driver
@@ -149,10 +177,79 @@ def _uobs(v):
     return [[k, x] for k, x in v.items()] if isinstance(v, dict) else v
 
 
+def snap_obj(R, o):
+    """Everything observed of one live object: fields, instance attribute names, and how it behaves."""
+    keys = sorted(vars(o))
+    flds = obj_obs(o)
+    try:
+        u = Ok(obj_obs(o.update()))
+    except Exception as e:  # noqa: BLE001
+        u = Err(e)
+    try:
+        sl = o.to_slurm_options()
+    except Exception as e:  # noqa: BLE001
+        sl = Err(e)
+    try:
+        eq = bool(R.from_dict(o.dict()) == o)
+    except Exception:  # noqa: BLE001
+        eq = False
+    return [flds, keys, u, sl, eq]
+
+
+def run_seq(c):
+    from pipefunc.resources import Resources as R
+
+    try:
+        heap = [R(**_kwargs(a)) for a in c["base"]]
+    except Exception as e:  # noqa: BLE001
+        return ["bad-case", Err(e)]
+    out = [[snap_obj(R, o) for o in heap]]
+    for op in c["ops"]:
+        t = op[0]
+        ids = ([] if t == "create" else op[1] if t == "combine" else [op[1], op[2]] if t == "eq"
+               else [op[1]] + ([op[2]] if t == "with_defaults" and op[2] is not None else []))
+        if any(j >= len(heap) for j in ids):
+            out.append(["bad-case", [snap_obj(R, o) for o in heap]])
+            continue
+        try:
+            if t == "create":
+                x = R(**_kwargs(op[1]))
+            elif t == "update":
+                x = heap[op[1]].update(**{a: (dict(map(tuple, b)) if isinstance(b, list) else b) for a, b in op[2]})
+            elif t == "combine":
+                x = R.combine_max([heap[j] for j in op[1]])
+            elif t == "with_defaults":
+                x = heap[op[1]].with_defaults(None if op[2] is None else heap[op[2]])
+            elif t == "from_dict":
+                x = R.from_dict(heap[op[1]].dict())
+            elif t == "dict":
+                x = ["val", [[a, _uobs(b)] for a, b in heap[op[1]].dict().items()]]
+            elif t == "slurm":
+                x = ["val", heap[op[1]].to_slurm_options()]
+            elif t == "eq":
+                x = ["val", bool(heap[op[1]] == heap[op[2]])]
+            else:
+                raise ValueError(t)
+            if isinstance(x, R):
+                k = next((j for j, y in enumerate(heap) if y is x), None)
+                if k is None:
+                    heap.append(x)
+                    k = len(heap) - 1
+                st = ["ok", k]
+            else:
+                st = x
+        except Exception as e:  # noqa: BLE001
+            st = Err(e)
+        out.append([st, [snap_obj(R, o) for o in heap]])
+    return out
+
+
 def run_impl(c):
     from pipefunc.resources import Resources as R
 
     k = c["kind"]
+    if k == "seq":
+        return run_seq(c)
     if k == "new":
         return _res_of(lambda: R(**_kwargs(c["a"])))
     if k == "from_dict":
@@ -429,8 +526,80 @@ CORNER = [
 ]
 _BLANK = {"cpus": None, "cpus_per_node": None, "nodes": None, "memory": None, "gpus": None, "time": None,
           "partition": None, "extra_args": [], "mode": "external"}
+CORNER += [
+    # operands of combine_max are used again afterwards (update, with_defaults, ==, dict round trip)
+    {"kind": "seq",
+     "base": [{**_BLANK, "cpus": 2, "memory": "512MB", "time": "30:00", "extra_args": [["qos", "short"]]},
+              {**_BLANK, "cpus": 8, "gpus": 1, "memory": "0.5TB", "time": "1:00:00:00"},
+              {**_BLANK, "cpus": 1, "time": "10:00"}],
+     "ops": [["update", 0, [["cpus", 3], ["account", "proj"]]], ["combine", [0, 1, 2]],
+             ["update", 0, [["cpus", 3], ["account", "proj"]]], ["update", 1, [["cpus", 9]]],
+             ["update", 2, [["cpus", 2]]], ["with_defaults", 0, 1], ["from_dict", 1], ["eq", 1, 8]]},
+    {"kind": "seq", "base": [{**_BLANK, "cpus": 1}],
+     "ops": [["update", 0, [["foo", 1]]], ["with_defaults", 0, None], ["update", 1, [["bar", 2]]], ["dict", 0],
+             ["slurm", 2], ["combine", [0, 0, 1]], ["eq", 0, 0]]},
+]
 CORNER += [{"kind": "new", "a": {**_BLANK, "memory": m}} for m in EDGE_MEM]
 CORNER += [{"kind": "new", "a": {**_BLANK, "time": t}} for t in EDGE_TIME]
+
+
+def gen_seq(rng):
+    """2-3 shared objects, 3-6 operations on them and on the results; operands are reused after combine_max."""
+    base = gen_operands(rng, rng.choice([2, 2, 3]))
+    sure = len(base)      # objects that certainly exist
+    maybe = len(base)     # objects that exist if every earlier operation succeeded
+    ops = []
+    for _ in range(rng.randint(3, 6)):
+        pick = lambda: rng.randrange(maybe if rng.random() < 0.6 else sure)  # noqa: E731
+        t = rng.choice(["update", "update", "combine", "combine", "with_defaults", "from_dict", "dict", "slurm", "eq",
+                        "create"])
+        if t == "create":
+            ops.append([t, gen_valid(rng, rich=True) if rng.random() < 0.8 else gen_fault(rng, gen_valid(rng))])
+            maybe += 1
+        elif t == "update":
+            ops.append([t, pick(), gen_kw(rng)])
+            maybe += 1
+        elif t == "combine":
+            ops.append([t, [pick() for _ in range(rng.choice([1, 2, 2, 3]))]])
+            maybe += 1
+            sure = sure + 1 if maybe == sure + 1 else sure
+        elif t == "with_defaults":
+            j = None if rng.random() < 0.25 else pick()
+            ops.append([t, pick(), j])
+            maybe += 0 if j is None else 1
+        elif t == "from_dict":
+            ops.append([t, pick()])
+            maybe += 1
+            sure = sure + 1 if maybe == sure + 1 else sure
+        elif t == "eq":
+            ops.append([t, pick(), pick()])
+        else:
+            ops.append([t, pick()])
+    return _untie({"kind": "seq", "base": base, "ops": ops})
+
+
+def _untie(c):
+    """Within one sequence, equal sizes are written the same way: the result of combine_max stays in the heap with its
+    memory STRING observed, and between equal sizes written differently the floats of the implementation may prefer
+    either one (the model is exact and keeps the first)."""
+    canon = {}
+
+    def fix(m):
+        if not isinstance(m, str):
+            return m
+        sz = mem_size(m)
+        return m if sz == "invalid" else canon.setdefault(tuple(sz), m)
+
+    for a in c["base"]:
+        a["memory"] = fix(a["memory"])
+    for o in c["ops"]:
+        if o[0] == "create":
+            o[1]["memory"] = fix(o[1]["memory"])
+        elif o[0] == "update":
+            for kv in o[2]:
+                if kv[0] == "memory":
+                    kv[1] = fix(kv[1])
+    return c
 
 
 def generate(rng, tier, mult):
@@ -466,6 +635,7 @@ def generate(rng, tier, mult):
         e = None if q < 0.75 else {"res": gen_valid(rng)} if q < 0.9 else {"dict": to_udict(rng, gen_valid(rng))}
         kids = [o if rng.random() < 0.7 else None for o in gen_operands(rng, rng.choice([0, 1, 2, 2, 3, 4]))]
         cases.append({"kind": "maybe_max", "e": e, "ch": kids})
+        cases.append(gen_seq(rng))
     return cases
 
 
@@ -482,6 +652,10 @@ def distribution(c):
     d = {"kind": c["kind"]}
     if c["kind"] == "combine":
         d["operands"] = len(c["rs"])
+    if c["kind"] == "seq":
+        d["seq_ops"] = len(c["ops"])
+        for o in c["ops"]:
+            d["seq_op_" + o[0]] = 1
     if c["kind"] == "maybe_max":
         d["children_with_resources"] = sum(1 for a in c["ch"] if a is not None)
     if c["kind"] == "update":
@@ -505,6 +679,24 @@ def finding_id(c, impl_obs, kind):
     return None
 
 
+def _ids(o):
+    t = o[0]
+    return ([] if t == "create" else list(o[1]) if t == "combine" else [o[1], o[2]] if t == "eq"
+            else [o[1]] + ([o[2]] if t == "with_defaults" and o[2] is not None else []))
+
+
+def _renum(o, j):
+    f = lambda i: i - 1 if i is not None and i > j else i  # noqa: E731
+    t = o[0]
+    if t == "create":
+        return o
+    if t == "combine":
+        return [t, [f(i) for i in o[1]]]
+    if t in ("eq", "with_defaults"):
+        return [t, f(o[1]), f(o[2])]
+    return [t, f(o[1])] + list(o[2:])
+
+
 def shrink(c):
     out = []
     k = c["kind"]
@@ -512,7 +704,7 @@ def shrink(c):
         for j in range(len(c["rs"])):
             out.append({"kind": k, "rs": c["rs"][:j] + c["rs"][j + 1:]})
     targets = {"new": ["a"], "combine": [], "update": ["r"], "with_defaults": ["r", "d"], "maybe": ["r", "d"],
-               "dict": ["r"], "slurm": ["r"], "from_dict": [], "maybe_max": []}[k]
+               "dict": ["r"], "slurm": ["r"], "from_dict": [], "maybe_max": [], "seq": []}[k]
     for t in targets:
         a = c[t]
         if a is None:
@@ -527,6 +719,25 @@ def shrink(c):
             for f in FIELDS:
                 if a[f] is not None:
                     out.append({"kind": k, "rs": c["rs"][:j] + [{**a, f: None}] + c["rs"][j + 1:]})
+    if k == "seq":
+        # fewer operations first (later ids then name other objects or nothing: still a sequence, judged afresh)
+        for j in reversed(range(len(c["ops"]))):
+            out.append({**c, "ops": c["ops"][:j] + c["ops"][j + 1:]})
+        for j, o in enumerate(c["ops"]):
+            if o[0] == "update" and o[2]:
+                out.append({**c, "ops": c["ops"][:j] + [[o[0], o[1], []]] + c["ops"][j + 1:]})
+            if o[0] == "combine" and len(o[1]) > 1:
+                for q in range(len(o[1])):
+                    out.append({**c, "ops": c["ops"][:j] + [[o[0], o[1][:q] + o[1][q + 1:]]] + c["ops"][j + 1:]})
+        for j in range(len(c["base"])):  # drop a base object nobody names; later ids move down by one
+            if len(c["base"]) > 1 and all(j not in _ids(o) for o in c["ops"]):
+                out.append({**c, "base": c["base"][:j] + c["base"][j + 1:], "ops": [_renum(o, j) for o in c["ops"]]})
+        for j, a in enumerate(c["base"]):
+            for f in FIELDS:
+                if a[f] is not None:
+                    out.append({**c, "base": c["base"][:j] + [{**a, f: None}] + c["base"][j + 1:]})
+            if a["extra_args"]:
+                out.append({**c, "base": c["base"][:j] + [{**a, "extra_args": []}] + c["base"][j + 1:]})
     if k == "maybe_max":
         for j in range(len(c["ch"])):
             out.append({**c, "ch": c["ch"][:j] + c["ch"][j + 1:]})
